@@ -152,6 +152,90 @@ func drConnDefaultCache(fd *ast.FuncDecl, pkg string) bool {
 	return len(drCallsIn(calls[0], pkg+".WithResponseMessageCache")) == 0
 }
 
+// drMutexMapTrace lists, in source order, what a method of udp/client/mutexmap.go does with the map lock, the entry map, an
+// entry's reference count and an entry's own mutex.
+func drMutexMapTrace(fn *ast.FuncDecl) string {
+	var ev []string
+	stores := map[ast.Node]bool{}
+	deferred := map[ast.Node]bool{}
+	ast.Inspect(fn.Body, func(x ast.Node) bool {
+		switch v := x.(type) {
+		case *ast.DeferStmt:
+			deferred[v.Call] = true
+		case *ast.AssignStmt:
+			for _, l := range v.Lhs {
+				if ix, ok := l.(*ast.IndexExpr); ok && exprStr(ix.X) == "m.ma" {
+					stores[ix] = true
+					ev = append(ev, "store:"+exprStr(ix.Index))
+				}
+			}
+		case *ast.IndexExpr:
+			if exprStr(v.X) == "m.ma" && !stores[v] {
+				ev = append(ev, "load:"+exprStr(v.Index))
+			}
+		case *ast.IncDecStmt:
+			ev = append(ev, "incdec:"+exprStr(v.X)+v.Tok.String())
+		case *ast.IfStmt:
+			ev = append(ev, "if:"+exprStr(v.Cond))
+		case *ast.ReturnStmt:
+			var rs []string
+			for _, r := range v.Results {
+				rs = append(rs, exprStr(r))
+			}
+			ev = append(ev, "return:"+strings.Join(rs, ","))
+		case *ast.CompositeLit:
+			if identName(v.Type) == "mutexMapEntry" {
+				cnt := "0"
+				for _, el := range v.Elts {
+					if kv, ok := el.(*ast.KeyValueExpr); ok && identName(kv.Key) == "cnt" {
+						cnt = exprStr(kv.Value)
+					}
+				}
+				ev = append(ev, "new:cnt="+cnt)
+			}
+		case *ast.CallExpr:
+			name := exprStr(v.Fun)
+			switch name {
+			case "m.ml.Lock", "m.ml.Unlock", "e.el.Lock", "e.el.Unlock", "e.el.TryLock":
+				if deferred[v] {
+					name = "defer " + name
+				}
+				ev = append(ev, "call:"+name)
+			case "delete":
+				var as []string
+				for _, a := range v.Args {
+					as = append(as, exprStr(a))
+				}
+				ev = append(ev, "delete:"+strings.Join(as, ","))
+			case "panic":
+				ev = append(ev, "panic")
+			}
+		}
+		return true
+	})
+	return strings.Join(ev, " | ")
+}
+
+// drMutexMapRefCounted: udp/client/mutexmap.go has the shape Model/DedupLockN.lean models - the entry of a key is found or
+// created and its reference count changed under the map lock, TryLock creates the entry with count 1 and its mutex taken
+// and refuses when an entry exists, Lock waits for the entry's mutex after the map lock is released, Unlock decrements
+// under the map lock, removes the entry when the count drops below 1 and releases the entry's mutex last.  Fails closed:
+// any other sequence of these operations yields false.
+func drMutexMapRefCounted(repo string) bool {
+	_, f := parseFile(repo, "udp/client/mutexmap.go")
+	lock := funcDecl(f, "MutexMap", "Lock")
+	try := funcDecl(f, "MutexMap", "TryLock")
+	unlock := funcDecl(f, "mutexMapEntry", "Unlock")
+	if lock == nil || try == nil || unlock == nil {
+		fail("udp/client/mutexmap.go: Lock / TryLock / Unlock not found")
+		return false
+	}
+	wantLock := "call:m.ml.Lock | load:key | if:!ok | new:cnt=0 | store:key | incdec:e.cnt++ | call:m.ml.Unlock | call:e.el.Lock | return:e"
+	wantTry := "call:m.ml.Lock | call:defer m.ml.Unlock | if:ok | load:key | return:nil,false | new:cnt=1 | call:e.el.Lock | store:key | return:e,true"
+	wantUnlock := "call:m.ml.Lock | load:entry.key | if:!ok | call:m.ml.Unlock | panic | incdec:e.cnt-- | if:e.cnt < 1 | delete:m.ma,entry.key | call:m.ml.Unlock | call:e.el.Unlock"
+	return drMutexMapTrace(lock) == wantLock && drMutexMapTrace(try) == wantTry && drMutexMapTrace(unlock) == wantUnlock
+}
+
 func genDedup(g *gen, repo string) {
 	_, f := parseFile(repo, drConnFile)
 
@@ -378,6 +462,7 @@ func genDedup(g *gen, repo string) {
 	fmt.Fprintf(&b, "/-- processResponse caches an empty (code 0.00) or reset reply like any other reply (AST) -/\ndef emptyReplyCached : Bool := %s\n", drLeanBool(emptyCached))
 	fmt.Fprintf(&b, "/-- handleReq takes msgIDMutex.Lock(req.MessageID()) with a deferred Unlock before check/handle/store (AST) -/\ndef handleReqLockedPerMID : Bool := %s\n", drLeanBool(locked))
 	fmt.Fprintf(&b, "/-- handleReq does not wait for the per-message-ID lock with the reader loop in its hand: it tries the lock first and, when a copy of a request that is still being handled finds it taken, asks for a replacement loop (TryToReplaceLoop) before it waits (AST; false: plain Lock) -/\ndef copyWaitsAfterHandover : Bool := %s\n", drLeanBool(tryShape && handsOver))
+	fmt.Fprintf(&b, "/-- udp/client/mutexmap.go is the reference-counted per-key mutex Model/DedupLockN.lean models: entries found / created / counted / removed under the map lock, TryLock refuses when an entry exists and otherwise creates it with count 1 and its mutex taken, the entry's mutex is awaited after and released after the map lock (AST; fails closed) -/\ndef mutexMapRefCounted : Bool := %s\n", drLeanBool(drMutexMapRefCounted(repo)))
 	fmt.Fprintf(&b, "/-- checkMyMessageID: distance guard and jump; NewConnWithOpts initial offset (AST) -/\ndef midGuard : Nat := %d\ndef midJump : Nat := %d\ndef midInitOffset : Nat := %d\n", guard, jump, initOff)
 	fmt.Fprintf(&b, "/-- checkMyMessageID applies to non-confirmable messages of the peer as well as to confirmable ones (false: to confirmable ones only) (AST) -/\ndef midJumpOnNon : Bool := %s\n", drLeanBool(conAndNon))
 	// servers: which cache do the connections they create get, and in which order does the datagram server look a peer up
